@@ -31,7 +31,7 @@ let rb_s = function
 
 let handle line =
   match split_ws line with
-  | [m; max; cts; cls; fs] ->
+  | [m; max; cts; cls; fs] | [m; max; cts; cls; fs; "H"] ->      (* H: the body carries an exact size hint; no such notion in the model *)
     let m = bytes_of_hex m and max = n_of_string max in
     let cts = List.map hval (list cts) and cls = List.map hval (list cls) in
     let fs = List.map frame (list fs) in
